@@ -20,6 +20,18 @@ DONE = {
   'only_backbone) including residues sharing a number but differing in name or chain. Correspondence for all 2^5 option combinations.',
   'hand-written Gallina model + Coq theorems + differential check',
   'as C05. Print Assumptions: closed under the global context.'),
+ 'C07': ('§5.C07',
+  'The four RMSD routines (fast/SQL x i/L), compute_izone/compute_lzone, check_residues, the identity-keyed intersections and the three '
+  'fixed-column readers are modelled on top of the contact model (C05/C14) and the superposition model (C13), with the rotation kernel as a '
+  'recorded oracle (C06); reader columns, zone format, contact test and get_rmsd shape are regenerated. Coq proves: the readers read the wwPDB '
+  'columns; the SQL route pairs by identity for any record order; missing atoms are left out; the fast route pairs by identity under the '
+  'same-relative-order condition and is refuted without it (F6); the reported value is the kernel residual on the centred fitted atoms; '
+  'identical structures score 0. Harness: implementation vs extracted model (exact mean squared deviation from the recorded rotation) and vs the '
+  'specification (zone + identity pairs from Coq, minimum evaluated by an independent Kabsch) on generated complexes, 4 routines x 2 methods.',
+  'hand-written Gallina pipeline model with oracle rotation + Coq theorems + regenerated readers + differential check',
+  'PARTIAL: zone exactness (compute_izone = definition) is checked three ways on every run but not yet a theorem; the optimum over rotations is '
+  'C06\'s theorem, evaluated numerically by the harness (binary64 Kabsch, 2e-4 guard band at rounding ties). Known finding F6. '
+  'Print Assumptions: closed under the global context.'),
  'C08': ('§5.C08',
   'compute_fnat_fast (own fixed-column reader, regenerated and proved equal to the wwPDB slices), compute_fnat_pdb2sql (with fix_chainID renaming), '
   'compute_residue_pairs_ref and compute_clashes modelled; caller constants regenerated. Coq proves both Fnat routes equal the definition (absent residue = '
